@@ -154,8 +154,14 @@ func verifC14Replay(maxFiles int) {
 	initial := verifChoice("initial-tables", 3)
 	nf := verifChoice("files", maxFiles) + 1
 	mem := &migrate.MemDir{}
+	// the last file may be unscannable (unclosed quote): a failure that is not a statement error
+	broken := verifChoice("broken-last", 2) == 1
 	for i := 0; i < nf; i++ {
-		mem.WriteFile(fmt.Sprintf("%d_f.sql", i+1), []byte(fmt.Sprintf("CREATE TABLE t%d (id int);\nCREATE TABLE u%d (id int);\n", i, i)))
+		text := fmt.Sprintf("CREATE TABLE t%d (id int);\nCREATE TABLE u%d (id int);\n", i, i)
+		if broken && i == nf-1 {
+			text = fmt.Sprintf("CREATE TABLE t%d (c text DEFAULT 'abc);\n", i)
+		}
+		mem.WriteFile(fmt.Sprintf("%d_f.sql", i+1), []byte(text))
 	}
 	sum, _ := mem.Checksum()
 	migrate.WriteSumFile(mem, sum)
@@ -170,6 +176,9 @@ func verifC14Replay(maxFiles int) {
 	verifAssert(dir.writes == 0, "replaying a directory never writes to it")
 	if err == nil {
 		verifReach("replayed")
+	}
+	if broken && initial == 0 {
+		verifAssert(err != nil, "an unscannable file fails the replay")
 	}
 	verifCheckDev(d, initial, err)
 }
@@ -201,3 +210,48 @@ func verifC14Normalize() {
 func VerifHarness_C14_replay()    { verifC14Replay(2) }
 func VerifHarness_C14_replay3()   { verifC14Replay(3) }
 func VerifHarness_C14_normalize() { verifC14Normalize() }
+
+// verifC14Gate: the cleanliness gate itself. For every database holding 0..2
+// tables with names among the revisions table's name and two user tables (in
+// any order), with or without a revisions-table identity passed in, CheckClean
+// accepts exactly an empty database or one that holds nothing but the
+// revisions table. Names are one symbolic letter each, so "is the revisions
+// table" is decided by the solver.
+type vGateInspect struct {
+	schema.Inspector
+	names []string
+}
+
+func (i vGateInspect) InspectRealm(context.Context, *schema.InspectRealmOption) (*schema.Realm, error) {
+	s := schema.New(mainFile)
+	for _, n := range i.names {
+		s.AddTables(schema.NewTable(n).AddColumns(schema.NewIntColumn("id", "integer")))
+	}
+	return schema.NewRealm(s), nil
+}
+
+func verifC14Gate() {
+	n := verifChoice("tables", 3)
+	var names []string
+	for k := 0; k < n; k++ {
+		names = append(names, "t"+verifString(fmt.Sprintf("n%d", k), 1))
+	}
+	rev := "t" + verifString("rev", 1)
+	var revT *migrate.TableIdent
+	if verifBool("hasRevT") {
+		revT = &migrate.TableIdent{Name: rev}
+	}
+	drv := &Driver{conn: &conn{}, Inspector: vGateInspect{names: names}}
+	err := drv.CheckClean(context.Background(), revT)
+	clean := n == 0 || n == 1 && revT != nil && names[0] == rev
+	var nce *migrate.NotCleanError
+	if clean {
+		verifReach("clean")
+		verifAssert(err == nil, "an empty database, or one holding only the revisions table, is clean")
+	} else {
+		verifReach("dirty")
+		verifAssert(errors.As(err, &nce), "a database holding any user table is not clean, whatever else it holds")
+	}
+}
+
+func VerifHarness_C14_gate() { verifC14Gate() }
